@@ -470,6 +470,20 @@ def gen_pair_file(repo, out):
         return {'error': '%s: %s' % (type(e).__name__, e)}
 
 
+def gen_simfunctions_file(repo, out):
+    """Gen/SimFunctionsGen.v (simfunctions.py); returns its status entry.  On failure a file that cannot
+    compile is left behind, so that no stale table survives."""
+    import simfunctions
+    try:
+        text, info = simfunctions.gen_simfunctions(repo)
+        changed = write_if_changed(os.path.join(out, 'SimFunctionsGen.v'), text)
+        return dict(info, changed=changed)
+    except (py2coq.Unsupported, SyntaxError, OSError) as e:
+        write_if_changed(os.path.join(out, 'SimFunctionsGen.v'),
+                         '(* translation failed: %s *)\nTranslation_failed.\n' % str(e).replace('*)', '* )'))
+        return {'error': '%s: %s' % (type(e).__name__, e)}
+
+
 def gen_matcher_file(repo, out):
     """Gen/MatcherGen.v (matchers.py); returns its status entry.  On failure a file that cannot
     compile is left behind, so that no stale model survives."""
@@ -545,6 +559,8 @@ def main():
         ok = ok and 'error' not in status['WrapperGen.v']
         status['MatcherGen.v'] = gen_matcher_file(args.repo, args.out)
         ok = ok and 'error' not in status['MatcherGen.v']
+        status['SimFunctionsGen.v'] = gen_simfunctions_file(args.repo, args.out)
+        ok = ok and 'error' not in status['SimFunctionsGen.v']
         status['FilterWrapperGen.v'] = gen_filter_wrapper_file(args.repo, args.out)
         ok = ok and 'error' not in status['FilterWrapperGen.v']
         status['ProfilerGen.v'] = gen_profiler_file(args.repo, args.out)
